@@ -1,8 +1,10 @@
-From C01 Require Import Order.
+From C01 Require Import Model Order.
+(* [pol] = the analyzer's sideeffect rules as scraped into Gen.v *)
+Notation pol := analyzer_se_policy (only parsing).
 Local Open Scope Z_scope.
 
 Definition order_preserved_full : Prop :=
-  forall fe e st o, nelua_run fe e st o = lua_run fe e st.
+  forall fe e st o, nelua_run pol fe e st o = lua_run fe e st.
 
 (* witnesses.  Functions: 1 = f, assigns variable 0 := 10 directly, returns 100;
    2 = g/print-like, prints, no writes; 3 = second writer (variable 0 := 20, returns 200);
@@ -20,43 +22,60 @@ Definition st_w : state := ([1], []).
 
 (* x + f() with x a global: Lua 101, C with the call first 110 *)
 Definition e_global : expr := EBin AAdd (EVar VGlobal 0) (ECall 1 []).
-Lemma order_refuted_global : exists o, snd (nelua_run fe_w e_global st_w o) <> snd (lua_run fe_w e_global st_w).
+Lemma order_refuted_global : exists o, snd (nelua_run pol fe_w e_global st_w o) <> snd (lua_run fe_w e_global st_w).
 Proof. exists [1%nat]. vm_compute. discriminate. Qed.
 
 (* x + f() with x a chunk-level local: Lua reads x late (110), C with x first 101 *)
 Definition e_local : expr := EBin AAdd (EVar VLocal 0) (ECall 1 []).
-Lemma order_refuted_local : exists o, snd (nelua_run fe_w e_local st_w o) <> snd (lua_run fe_w e_local st_w).
+Lemma order_refuted_local : exists o, snd (nelua_run pol fe_w e_local st_w o) <> snd (lua_run fe_w e_local st_w).
 Proof. exists [0%nat]. vm_compute. discriminate. Qed.
 
 (* g(x, f()): one side-effecting argument => plain C call, arguments unsequenced *)
 Definition e_args : expr := ECall 2 [EVar VGlobal 0; ECall 1 []].
-Lemma order_refuted_args : exists o, nelua_run fe_w e_args st_w o <> lua_run fe_w e_args st_w.
+Lemma order_refuted_args : exists o, nelua_run pol fe_w e_args st_w o <> lua_run fe_w e_args st_w.
 Proof. exists [1%nat]. vm_compute. discriminate. Qed.
 
 (* g(x, f(), h()): two side-effecting arguments are hoisted into temporaries, the plain argument x
    is read after them: wrong for every evaluation order the C compiler may choose *)
 Definition e_args3 : expr := ECall 2 [EVar VGlobal 0; ECall 1 []; ECall 3 []].
-Lemma order_refuted_args3 : forall o, nelua_run fe_w e_args3 st_w o <> lua_run fe_w e_args3 st_w.
+Lemma order_refuted_args3 : forall o, nelua_run pol fe_w e_args3 st_w o <> lua_run fe_w e_args3 st_w.
 Proof.
-  intros o. unfold nelua_run. cbn [comp e_args3 map has_se fe_w filter length Nat.leb combine].
+  intros o. unfold nelua_run. 
   destruct o as [|c o]; vm_compute; discriminate.
 Qed.
 
 (* id(f()) + h(): before /repo 7b4cb3f the call of a function without side effects hid the side effect of its
    argument and the two operands were unsequenced; now both are marked and sequenced *)
 Definition e_wrapper : expr := EBin AAdd (ECall 4 [ECall 1 []]) (ECall 3 []).
-Lemma order_wrapper_sequenced : forall o, nelua_run fe_w e_wrapper st_w o = lua_run fe_w e_wrapper st_w.
-Proof. intros o. destruct o as [|c o]; vm_compute; reflexivity. Qed.
 
 (* show(bump(), bump()): bump writes through a record field.  Before /repo 9e49985 the analyzer did not
    mark it and the two calls were emitted unsequenced; now both arguments are hoisted into temporaries
    and every C evaluation order gives Lua's result *)
 Definition e_unflagged : expr := ECall 2 [ECall 5%nat []; ECall 5%nat []].
-Lemma order_indirect_store_sequenced : forall o, nelua_run fe_w e_unflagged st_w o = lua_run fe_w e_unflagged st_w.
-Proof. intros o. destruct o as [|c o]; vm_compute; reflexivity. Qed.
-Example bump_is_flagged : f_se (fe_w 5%nat) = true. Proof. reflexivity. Qed.
+Example bump_is_flagged : f_se pol (fe_w 5%nat) = true. Proof. reflexivity. Qed.
 
 Lemma order_refuted : ~ order_preserved_full.
 Proof.
   intros H. destruct order_refuted_args as (o & Ho). apply Ho, H.
+Qed.
+
+(* ---------- the two analyzer facts, and what each of them is needed for (every policy) ---------- *)
+Lemma se_policy_facts : p_args_propagate pol = true /\ p_indirect_marks pol = true.
+Proof. split; reflexivity. Qed.
+
+(* show(bump(), bump()) agrees with Lua for every C evaluation order exactly when stores through a field mark
+   the function (/repo 9e49985) *)
+Lemma indirect_marks_iff p : p_indirect_marks p = true <-> (forall o, nelua_run p fe_w e_unflagged st_w o = lua_run fe_w e_unflagged st_w).
+Proof.
+  destruct p as [a b]. split.
+  - cbn. intros ->. intros o. destruct a; destruct o as [|c o]; vm_compute; reflexivity.
+  - intros H. destruct b; [reflexivity|]. specialize (H [1%nat]). destruct a; vm_compute in H; discriminate H.
+Qed.
+(* id(f()) + h() (f, h writing the same global) agrees with Lua for every C evaluation order exactly when a call
+   takes the attribute of its arguments (/repo 7b4cb3f) *)
+Lemma args_propagate_iff p : p_args_propagate p = true <-> (forall o, nelua_run p fe_w e_wrapper st_w o = lua_run fe_w e_wrapper st_w).
+Proof.
+  destruct p as [a b]. split.
+  - cbn. intros ->. intros o. destruct b; destruct o as [|c o]; vm_compute; reflexivity.
+  - intros H. destruct a; [reflexivity|]. specialize (H [1%nat]). destruct b; vm_compute in H; discriminate H.
 Qed.
